@@ -188,7 +188,7 @@ def run(harnesses, timeout_s, jobs=8, extra=None, log_path=None, playback=False,
         if playback:
             for h in harnesses:
                 results[h] = parse_result_text(h, out)
-            info["playback_vals"] = parse_playback(out)
+            info["playback_out"] = out
         else:
             for h in harnesses:
                 path = os.path.join(RESULT_DIR, h)
@@ -252,13 +252,32 @@ def parse_result_text(name, txt):
     return r
 
 
-def parse_playback(out):
-    """the unit test Kani prints: vec![ // comment \n vec![1, 2], ... ]"""
-    m = re.search(r"let concrete_vals: Vec<Vec<u8>> = vec!\[(.*?)\n\s*\];", out, re.S)
-    if not m:
-        return None
-    vals = []
-    for vm in re.finditer(r"vec!\[([0-9,\s]*)\]", m.group(1)):
-        body = vm.group(1).strip()
-        vals.append([int(x) for x in body.split(",") if x.strip()] if body else [])
-    return vals
+def parse_playback(out, want_desc=None):
+    """Kani prints one unit test per failed check *and* per satisfied cover: `/// Check for `<kind>`: "<description>"` precedes
+    each. Returns the values of the test for the failing assertion (matching want_desc when given; otherwise the first test
+    that is not a cover)."""
+    tests = []
+    for m in re.finditer(r"/// Check for `([^`]*)`: \"([^\n]*)\"\n(?:(?!/// Check for)[\s\S])*?let concrete_vals: Vec<Vec<u8>> = vec!\[(.*?)\n\s*\];", out, re.S):
+        kind, desc, body = m.group(1), m.group(2), m.group(3)
+        vals = []
+        for vm in re.finditer(r"vec!\[([0-9,\s]*)\]", body):
+            b = vm.group(1).strip()
+            vals.append([int(x) for x in b.split(",") if x.strip()] if b else [])
+        tests.append((kind, desc.strip('"'), vals))
+    if not tests:
+        m = re.search(r"let concrete_vals: Vec<Vec<u8>> = vec!\[(.*?)\n\s*\];", out, re.S)
+        if not m:
+            return None
+        vals = []
+        for vm in re.finditer(r"vec!\[([0-9,\s]*)\]", m.group(1)):
+            b = vm.group(1).strip()
+            vals.append([int(x) for x in b.split(",") if x.strip()] if b else [])
+        return vals
+    if want_desc:
+        for kind, desc, vals in tests:
+            if kind != "cover" and desc == want_desc:
+                return vals
+    for kind, desc, vals in tests:
+        if kind != "cover":
+            return vals
+    return None
